@@ -247,9 +247,14 @@ def r5_lookahead(ctx, F):
         # accessors they call directly
         own = [p for p in reach if p.lstrip('<&').startswith(mode + '::')]
         ahead = sorted({p for p in own if p in sites} | {q for p in own for q in cg.succ.get(p, ()) if q in sites})
-        P = prov.prov_of(f)
+        # the construction may sit in a private preparation step shared with the gradual constructor (`DifficultyValues::prepare`): read through it
+        import inline
+        _mod = path.rsplit('::', 2)[0]
+        _loc = lambda h, _mod=_mod: not h.impl_trait and h.kind != 'Closure' and h.path.startswith(_mod) and h.name not in ('create_difficulty_objects', 'calculate', 'new')
+        fv = inline.inlined(F, f, depth=2, force=_loc, stop=lambda h: not _loc(h))
+        P = prov.prov_of(fv)
         cuts, margins, ncalls = [], [], 0
-        for bi, t in f.calls():
+        for bi, t in fv.calls():
             if t['func'].get('name') != 'create_difficulty_objects':
                 continue
             ncalls += 1
